@@ -23,6 +23,8 @@ struct Node {
   mpq_class lo, hi; bool point = false;   // position: point value or open interval (lo,hi); unbounded flags below
   bool lo_inf = false, hi_inf = false;
   uint32_t lo_h = 0, hi_h = 0;   // handles of the bounding terms (for SMT constraints)
+  bool nonzero = false;          // variable assumed != 0
+  bool ge0 = false;              // variable assumed >= 0
   bool wild = false;             // variable standing for memory the library does not define (knot padding)
 };
 static std::vector<Node> T;
@@ -53,10 +55,12 @@ static uint32_t mkconst(const mpq_class& v, int width){
   Node n; n.k = K_CONST; n.val = v; n.width = UF ? width : 64; n.cmpdom = 1; n.point = true; n.lo = n.hi = v;
   return mk(n, "c" + v.get_str() + (UF ? "w" + std::to_string(width) : ""));
 }
+extern "C" void ir_fp_globals_init(void) __attribute__((weak));
 extern "C" void vs_reset(int uf_mode){
   T.clear(); H.clear(); assumptions.clear(); divisors.clear(); UF = uf_mode; vs_failed = 0;
   mkconst(mpq_class(0), 64);           // handle 0 == +0.0 == zeroed memory
   { Node p; p.k = K_POISON; mk(p, "poison"); }   // handle 1 == value read from uninitialised memory
+  if (ir_fp_globals_init) ir_fp_globals_init();    // float constants inside the generated code's global data
 }
 extern "C" void vs_open(const char* d){ outdir = d; std::string m = outdir + "/manifest.jsonl"; manifest = fopen(m.c_str(), "a"); vs_reset(0); }
 extern "C" void vs_note(const char* key, const char* value){
@@ -84,6 +88,8 @@ extern "C" vr64 vs_qstr(const char* s){
   q.canonicalize(); return mkconst(q, 64);
 }
 extern "C" vr64 vs_var(const char* name){ Node n; n.k = K_VAR; n.name = name; return mk(n, std::string("v") + name); }
+extern "C" vr64 vs_var_nonzero(const char* name){ Node n; n.k = K_VAR; n.name = name; n.nonzero = true; return mk(n, std::string("v") + name); }
+extern "C" vr64 vs_var_ge0(const char* name){ Node n; n.k = K_VAR; n.name = name; n.ge0 = true; return mk(n, std::string("v") + name); }
 extern "C" vr64 vs_var_wild(const char* name){ Node n; n.k = K_VAR; n.name = name; n.wild = true; return mk(n, std::string("v") + name); }
 extern "C" vr64 vs_var_ranked(const char* name, int rank){
   Node n; n.k = K_VAR; n.name = name; n.cmpdom = 2; n.point = true; n.lo = n.hi = rank; return mk(n, std::string("v") + name);
@@ -191,6 +197,10 @@ extern "C" uint8_t vs_fcmp(int p, vr64 a, vr64 b){
   if (p == VRP_FALSE) return 0; if (p == VRP_TRUE) return 1;
   if (p == VRP_ORD) return 1; if (p == VRP_UNO) return 0;       // no NaN in this domain
   if (N(a).k == K_POISON || N(b).k == K_POISON) vs_error("float read from uninitialised memory used in a comparison");
+  { // a variable declared non-zero against the constant zero: decided for ==/!= only
+    Node& x = N(a); Node& y = N(b); bool xz = x.k == K_CONST && x.val == 0, yz = y.k == K_CONST && y.val == 0;
+    if ((x.k == K_VAR && x.nonzero && yz) || (y.k == K_VAR && y.nonzero && xz)) {
+      if (p == VRP_OEQ || p == VRP_UEQ) return 0; if (p == VRP_ONE || p == VRP_UNE) return 1; } }
   int o = order_of(H_(a), H_(b));
   if (o == 2) { std::string m = std::string("undetermined float comparison between ") + vs_show(a); m += std::string(" and ") + vs_show(b); vs_error(m.c_str()); }
   switch (p) {
@@ -243,6 +253,8 @@ static std::string emit_prelude(const std::vector<uint32_t>& order, const char* 
     for (uint32_t h : order) { Node& n = T[h];
       if (n.k != K_VAR) continue;
       if (n.cmpdom == 2 && n.point) ranked.push_back({n.lo, h});
+      if (n.nonzero) o << "(assert (distinct " << smtname(n.name) << " 0.0))\n";
+      if (n.ge0) o << "(assert (>= " << smtname(n.name) << " 0.0))\n";
       if (!n.cmpdom) continue;
       if (!n.point && !n.lo_inf) o << "(assert (< " << refname(n.lo_h) << " " << smtname(n.name) << "))\n";
       if (!n.point && !n.hi_inf) o << "(assert (< " << smtname(n.name) << " " << refname(n.hi_h) << "))\n";
@@ -291,11 +303,20 @@ extern "C" void vs_prove_eq(vr64 a_, vr64 b_, const char* label){
   // vacuity witness: the assumptions of this obligation must be satisfiable on their own
   write_query(pre + "(check-sat)\n", label, "witness", order.size());
 }
+extern "C" void vs_prove_nonneg(vr64 a_, const char* label){
+  uint32_t a = H_(a_); if (T[a].k == K_POISON) { vs_error("vs_prove_nonneg on uninitialised value"); }
+  std::set<uint32_t> seen; std::vector<uint32_t> order; collect(a, seen, order);
+  std::string pre = emit_prelude(order, "QF_NRA");
+  write_query(pre + "(assert (< " + refname(a) + " 0.0))\n(check-sat)\n", label, "eq", order.size());
+  write_query(pre + "(check-sat)\n", label, "witness", order.size());
+}
 extern "C" void vs_prove_nonzero_divisors(const char* label){
   std::set<uint32_t> ds(divisors.begin(), divisors.end());
   for (uint32_t d : ds) {
     std::set<uint32_t> seen; std::vector<uint32_t> order; collect(d, seen, order);
-    bool wild = false; for (uint32_t h : order) if (T[h].k == K_VAR && T[h].wild) wild = true;
+    bool nonzero = false;          // variable assumed != 0
+  bool ge0 = false;              // variable assumed >= 0
+  bool wild = false; for (uint32_t h : order) if (T[h].k == K_VAR && T[h].wild) wild = true;
     if (wild) {   // denominators built from undefined padding memory belong to discarded terms: not an obligation (stated assumption)
       if (manifest) { fprintf(manifest, "{\"kind\":\"divisor-skipped\",\"label\":\"%s\",\"case\":\"%s\"}\n", jsesc(label).c_str(), jsesc(curcase).c_str()); fflush(manifest); }
       continue;
